@@ -14,7 +14,7 @@ from common import CORPUS_DIR, call, shrink_list
 
 RULE = ("a universe of 12-20 objects (lanelets with sign/light references, traffic signs, traffic lights, intersections with "
         "0-3 incoming elements, obstacles of the four roles, 1-3 lanelet networks with own members) whose ids are drawn from a "
-        "pool of 5-10 numbers so that they collide; a history of up to 40 (thorough: up to 400) operations chosen online from "
+        "pool of 6-12 numbers so that they collide; a history of up to 40 (thorough: up to 400) operations chosen online from "
         "add_objects (single / list / LaneletNetwork / wrong type), remove_obstacle|lanelet|traffic_sign|traffic_light|"
         "intersection (single and list forms), replace_lanelet_network, generate_object_id, biased towards removing contained "
         "objects and adding removed ones again; a case is one (universe, history); non-trivial = every case (each has >= 1 add "
@@ -37,7 +37,7 @@ REQUIRED_BUCKETS = [
     "op:rm_lanelet_list", "op:rm_sign", "op:rm_sign_list", "op:rm_light", "op:rm_light_list", "op:rm_inter",
     "op:rm_inter_list", "op:replace_net", "op:gen", "add-rejected", "add-rejected[inter]", "add-rejected[network]",
     "add[network]-over-nonempty", "list-add-partial", "re-add-after-remove", "re-add-after-list-remove[inter]",
-    "hanging-member-removed", "rm-not-contained", "gen-after-remove", "readd-checked-on-copy",
+    "hanging-member-removed", "rm-not-contained", "gen-after-remove", "readd-checked-on-copy", "size>=6",
 ]
 WORKERS = {"quick": 1, "thorough": 8}
 
@@ -185,18 +185,23 @@ def canon_model_state(st):
 # ------------------------------------------------------------------------------------------------ universe generation
 
 def gen_universe(r):
-    pool = list(range(r.choice([5, 6, 7, 8, 10])))
+    pool = list(range(r.choice([6, 7, 8, 10, 12])))
     if r.random() < 0.3:
         pool[-1] = r.choice([0, 57, 10 ** 6])
     pid = lambda: r.choice(pool)  # noqa: E731
-    refs = lambda: sorted(set(pid() for _ in range(r.choice([0, 0, 1, 1, 2, 3]))))  # noqa: E731
+    sign_ids = [pid() for _ in range(r.randint(2, 3))]
+    light_ids = [pid() for _ in range(r.randint(1, 3))]
+
+    def refs(own):  # references of a lanelet: mostly to signs / lights that exist in the universe
+        return sorted(set(r.choice(own) if r.random() < 0.7 else pid() for _ in range(r.choice([0, 0, 1, 1, 2, 3]))))
+
     uni = []
     for _ in range(r.randint(3, 5)):
-        uni.append({"k": "lanelet", "id": pid(), "signs": refs(), "lights": refs()})
-    for _ in range(r.randint(2, 3)):
-        uni.append({"k": "sign", "id": pid()})
-    for _ in range(r.randint(1, 3)):
-        uni.append({"k": "light", "id": pid()})
+        uni.append({"k": "lanelet", "id": pid(), "signs": refs(sign_ids), "lights": refs(light_ids)})
+    for i in sign_ids:
+        uni.append({"k": "sign", "id": i})
+    for i in light_ids:
+        uni.append({"k": "light", "id": i})
     for _ in range(r.randint(2, 3)):
         incs = [pid() for _ in range(r.choice([0, 1, 1, 2, 2, 3]))]
         if r.random() < 0.75:  # mostly well-formed (distinct) incoming ids
@@ -213,7 +218,7 @@ def gen_universe(r):
         clean = r.random() < 0.8
         take = (lambda: ids.pop() if ids else pid()) if clean else pid
         for _ in range(r.choice([0, 1, 2, 2, 3])):
-            uni.append({"k": "lanelet", "id": take(), "signs": refs(), "lights": refs(), "owned": True})
+            uni.append({"k": "lanelet", "id": take(), "signs": refs(sign_ids), "lights": refs(light_ids), "owned": True})
             members.append(len(uni) - 1)
         for k, cnt in (("sign", r.choice([0, 1, 1, 2])), ("light", r.choice([0, 0, 1])), ("inter", r.choice([0, 0, 1]))):
             for _ in range(cnt):
@@ -587,9 +592,13 @@ def choose_op(r, run):
         return sorted(set(r.choice(pool) for _ in range(r.choice([0, 1, 2, 3]))))
 
     # after a removal: often add one of the objects that just left again (on the real scenario)
+    if len(idx_in) >= 6:
+        run.ctx.tag("size>=6")
     if run.last_vanished and r.random() < 0.6:
         return {"op": "add", "o": r.choice(run.last_vanished), "refs": None}
     w = r.random()
+    if len(idx_in) < 3 and w > 0.6:
+        w = r.random() * 0.4      # keep the scenario populated
     if w < 0.27:
         src = idx_out if (idx_out and r.random() < 0.85) or not idx_in else idx_in
         i = r.choice(src)
@@ -617,7 +626,10 @@ def choose_op(r, run):
             "rm_sign": [i for i in idx_out if kinds[i] == "sign"], "rm_light": [i for i in idx_out if kinds[i] == "light"],
             "rm_inter": [i for i in idx_out if kinds[i] == "inter"]}
     avail = [b for b in groups if groups[b]]
-    foreign = r.random() < 0.10 or not avail
+    if not avail and idx_out and r.random() < 0.9:
+        i = r.choice(idx_out)
+        return {"op": "add", "o": i, "refs": some_refs() if kinds[i] in ("sign", "light") else None}
+    foreign = r.random() < 0.08 or not avail
     cands = [b for b in outs if outs[b]] if foreign else avail
     if not cands:
         return {"op": "gen"}
